@@ -435,6 +435,7 @@ def run(tier):
     rule_R6(res, prog)
     rule_R3b(res, prog)
     rule_R7(res, prog)
+    rule_R8(res, prog)
     res.floor("C19.R1", 150)
     res.floor("C19.R2", 3)
     res.floor("C19.R3", 30)
@@ -1103,3 +1104,143 @@ def rule_R7(res, prog):
                                          fn.relfile, ln, fn.name, ttxt[:40], r.get("fn"), hit[2], hit[1], hit[0]), file=fn.relfile, line=ln)
                     res.instance(rid, "%s:%s %s = %s(..)" % (fn.name, ln, ttxt[:30], r.get("fn")), not hit, finding=f_)
     res.floor(rid, 150)
+
+
+def rule_R8(res, prog):
+    """Out-pointer of a callee that can fail to allocate it: when a function stores an allocation result through an
+    out-parameter (*out = alloc(..)) and returns an error if that was NULL, a caller that passes &v must not dereference v
+    on a path where the call's error was neither excluded nor v tested non-NULL (error tolerated, e.g. by a `partial
+    parse allowed` flag)."""
+    rid = "C19.R8"
+    res.rule(rid, "a pointer received through an out-parameter of a callee that may leave it NULL on failure is dereferenced only after the "
+                  "error was excluded or the pointer tested")
+    cu = cu_r7
+    from sa.pp import pp
+    # callees: *P = [x =] alloc(..) and an error return under `x == NULL`
+    outnull = {}
+    for fn in prog.functions.values():
+        if not fn.blocks:
+            continue
+        pidx = {p_.get("id"): i for i, p_ in enumerate(fn.params)}
+        for b, ln, nd in fn.nodes():
+            if nd.get("k") == "bin" and nd["op"] == "=":
+                l = strip(nd["l"])
+                if l is not None and l.get("k") == "un" and l["op"] == "*" and (strip(l["e"]) or {}).get("id") in pidx:
+                    r = strip(nd["r"])
+                    while r is not None and (r.get("k") == "cast" or (r.get("k") == "bin" and r["op"] == "=")):
+                        r = strip(r["e"] if r.get("k") == "cast" else r["r"])
+                    if r is not None and r.get("k") == "call" and alloc_call(r):
+                        outnull[fn.name] = pidx[strip(l["e"])["id"]]
+    n = 0
+    for fn in sorted(prog.functions.values(), key=lambda f: f.qname):
+        if not fn.blocks or fn.relfile.startswith(("crypto/test", "matrixssl/test", "apps/", "core/test")):
+            continue
+        for b0 in fn.blocks:
+            for idx0, ln0, x0 in cu.block_exprs(b0):
+                for call in walk(x0):
+                    if call.get("k") != "call" or call.get("fn") not in outnull or call["fn"] == fn.name:
+                        continue
+                    pi = outnull[call["fn"]]
+                    if pi >= len(call.get("a", [])):
+                        continue
+                    a = strip(call["a"][pi])
+                    if a is None or a.get("k") != "un" or a["op"] != "&":
+                        continue
+                    v = strip(a["e"])
+                    if v is None or v.get("k") != "var" or v.get("sc") != "l" or "id" not in v:
+                        continue
+                    # result variable
+                    rv = None
+                    for m in walk(x0):
+                        if m.get("k") == "bin" and m["op"] == "=" and strip(m["r"]) is call and (strip(m["l"]) or {}).get("k") == "var":
+                            rv = strip(m["l"])
+                    n += 1
+                    seen = set()
+                    start_in_cond = idx0 == "c"
+                    stack = [(b0["id"], idx0, "unk", "unk", [])]
+                    bad = None
+                    while stack and bad is None:
+                        bid, after, err, nul, path = stack.pop()
+                        if (bid, after, err, nul) in seen:
+                            continue
+                        seen.add((bid, after, err, nul))
+                        b = fn.bmap[bid]
+                        started = after is None
+                        stop = False
+                        for i, ln, x in cu.block_exprs(b):
+                            if not started:
+                                if i == after:
+                                    started = True
+                                    if i != "c":
+                                        continue
+                                else:
+                                    continue
+                            if i == "c":
+                                break
+                            for m in walk(x):
+                                if m.get("k") == "bin" and m["op"] == "=" and (strip(m["l"]) or {}).get("id") == v["id"]:
+                                    stop = True          # re-assigned: another episode
+                                if m.get("k") == "call" and m is not call and any(
+                                        (strip(q) or {}).get("k") == "un" and (strip(q) or {}).get("op") == "&" and
+                                        (strip((strip(q) or {}).get("e")) or {}).get("id") == v["id"] for q in m.get("a", [])):
+                                    stop = True
+                                if m.get("k") == "mem" and m.get("arrow"):
+                                    bse = strip(m.get("b") or {})
+                                    while bse is not None and bse.get("k") == "cast":
+                                        bse = strip(bse["e"])
+                                    if bse is not None and bse.get("id") == v["id"] and err != "nonneg" and nul != "nonnull" and not stop:
+                                        bad = (ln, path)
+                            if x.get("k") == "ret":
+                                stop = True
+                            if stop or bad:
+                                break
+                        if stop or bad:
+                            continue
+                        t = b.get("term")
+                        for k, sc in enumerate(b["succ"]):
+                            if sc.get("b") is None:
+                                continue
+                            e2, n2 = err, nul
+                            skip = False
+                            if t is not None and "c" in t and len(b["succ"]) == 2:
+                                for (txt, tr, nd) in cu._cond_atoms(t["c"], k == 0):
+                                    nd0 = strip(nd)
+                                    if nd0 is None:
+                                        continue
+                                    if nd0.get("k") == "var" and nd0.get("id") == v["id"]:
+                                        n2 = "nonnull" if tr else "null"
+                                    if nd0.get("k") == "bin" and nd0["op"] in ("==", "!=") and (strip(nd0["l"]) or {}).get("id") == v["id"] and \
+                                            (strip(nd0["r"]) or {}).get("k") in ("int", "cast"):
+                                        isnull = (nd0["op"] == "==") == bool(tr)
+                                        n2 = "null" if isnull else "nonnull"
+                                    if nd0.get("k") == "bin" and nd0["op"] in ("<", ">=", "==", "!=") and (strip(nd0["r"]) or {}).get("k") == "int":
+                                        l_ = strip(nd0["l"])
+                                        if l_ is not None and l_.get("k") == "bin" and l_["op"] == "=":
+                                            l_ = strip(l_["l"])
+                                        is_res = (rv is not None and l_ is not None and l_.get("id") == rv.get("id")) or l_ is call
+                                        if is_res:
+                                            c_ = strip(nd0["r"])["v"]
+                                            if nd0["op"] == "<" and c_ == 0:
+                                                e2 = "neg" if tr else "nonneg"
+                                            elif nd0["op"] == ">=" and c_ == 0:
+                                                e2 = "nonneg" if tr else "neg"
+                                            elif nd0["op"] == "==" and c_ >= 0 and tr:
+                                                e2 = "nonneg"
+                                            elif nd0["op"] == "!=" and c_ >= 0 and not tr:
+                                                e2 = "nonneg"
+                                            if err in ("neg", "nonneg") and e2 != err:
+                                                skip = True
+                                if nul in ("null", "nonnull") and n2 != nul:
+                                    skip = True
+                            if skip:
+                                continue
+                            stack.append((sc["b"], None, e2, n2, (path + [t.get("ln") if t else None])[-6:]))
+                    f_ = None
+                    if bad is not None:
+                        f_ = Finding(PROP, rid, fn.name, "%s dereferenced after a tolerated failure of %s" % (v["n"], call["fn"]),
+                                     "%s:%s %s(): %s(.., &%s, ..) leaves %s NULL when its allocation fails (and returns an error); the "
+                                     "dereference at line %s is reached (via lines %s) without the error having been excluded or %s tested: NULL "
+                                     "dereference on allocation failure" % (fn.relfile, ln0, fn.name, call["fn"], v["n"], v["n"], bad[0], bad[1], v["n"]),
+                                     file=fn.relfile, line=ln0)
+                    res.instance(rid, "%s:%s %s(&%s)" % (fn.name, ln0, call["fn"], v["n"]), bad is None, finding=f_)
+    res.floor(rid, 5)
